@@ -322,6 +322,8 @@ def shrink_profile_steps(jp):
                 yield {"candidates": cands, "ballots": bs[:i] + [dict(b, w=fs(w - 1))] + bs[i + 1 :]}
     # canonical names
     plain = NAME_FAMILIES["plain"]
+    if cands is not None and len(cands) > len(plain):
+        plain = ["C%02d" % i for i in range(len(cands))]
     if cands is not None and any(c not in plain[: len(cands)] for c in cands):
         mp = {c: plain[i] for i, c in enumerate(cands)}
         nbs = []
